@@ -398,17 +398,16 @@ func runC04(c *Ctx) {
 	ruleRangeChannelDirection(c, "C04.11")
 	// C04.13 what is marked as a used import is what gets printed
 	ruleUsedMarkingMatchesEmission(c, "C04.13")
+	// C04.14 templates are complete when built (nothing patches a node produced elsewhere)
+	ruleTemplatesNotPatched(c, "C04.14")
 
 	// C04.10 user identifiers reach the allocator (shared with C12): otherwise a generated local can shadow a user name
 	{
 		sub := &Ctx{Prop: c.Prop, Tier: c.Tier, L: c.L, FuncsSeen: c.FuncsSeen, Extra: c.Extra, RoleNames: c.RoleNames}
-		alloc := map[*ssa.Function]bool{}
-		for _, fn := range pkgFuncs(L, genPkg) {
-			if strings.HasSuffix(fn.String(), "VarPool).GetName") || strings.HasSuffix(fn.String(), "VarPool).Get") || strings.HasSuffix(fn.String(), "VarPool).GetChannel") {
-				alloc[fn] = true
-			}
-		}
-		c12Registration(sub, alloc)
+		// the whole allocator discipline (fresh names, reserved words and predeclared identifiers seeded, used-set only grows,
+		// package-level names registered first) is a necessary condition of "the output compiles": a generated identifier that
+		// is a keyword, shadows a builtin it uses, or collides does not compile
+		runC12(sub)
 		for _, o := range sub.Obls {
 			o.Rule = "C04.10"
 			c.Obls = append(c.Obls, o)
@@ -549,6 +548,11 @@ func analyseWalker(L *Loaded, p *packages.Package, name string) *walkerInfo {
 			return nil
 		}
 	}
+	return analyseWalkerDecl(L, p, fd)
+}
+
+// analyseWalkerDecl: which accessors of go/types each case of fd's type switch consults.
+func analyseWalkerDecl(L *Loaded, p *packages.Package, fd *ast.FuncDecl) *walkerInfo {
 	gt := goTypesPkg(L)
 	w := &walkerInfo{fn: fd, perKind: map[string]map[string]bool{}, handled: map[string]bool{}}
 	var ts *ast.TypeSwitchStmt
